@@ -119,6 +119,15 @@ class Program:
                 if not os.environ.get("NGOSA_NO_NFORM"):
                     nform.sort_operands(tree)
 
+    def new_functions(self) -> set[str]:
+        """qualified names of functions that the reference tree (locals_ref.json) does not have: helpers that were extracted"""
+        if getattr(self, "_new_funcs", None) is None:
+            from . import alpha
+
+            ref = alpha.load_ref()
+            self._new_funcs = {q for q in self.funcs if q not in ref} if ref else set()
+        return self._new_funcs  # type: ignore[return-value]
+
     def _index_module(self, mod: Module) -> None:
         assigned: dict[str, int] = {}
         for stmt in mod.tree.body:
